@@ -209,6 +209,36 @@ pub fn gen_sched(rng: &mut Rng, calls: usize, kind: usize) -> Vec<SinkResp> {
             let at = rng.below(calls + 1);
             (0..=at).map(|i| if i == at { SinkResp::Error } else { SinkResp::Accept(usize::MAX >> 1) }).collect()
         }
+        // interruption storm at one place: whole buffers up to a call, then a few bytes accepted, then a RUN of
+        // 1..12 consecutive Interrupted, then small chunks (a retry loop with a bounded number of attempts, or one
+        // that restarts a buffer from its beginning, shows only after several interruptions in a row)
+        5 => {
+            let at = rng.below(calls + 1);
+            let mut s: Vec<SinkResp> = (0..at).map(|_| SinkResp::Accept(usize::MAX >> 1)).collect();
+            for _ in 0..rng.below(3) {
+                s.push(SinkResp::Accept(rng.range(1, 47)));
+            }
+            for _ in 0..rng.range(1, 12) {
+                s.push(SinkResp::Interrupted);
+            }
+            let k = rng.range(1, 50);
+            s.extend((0..calls * 60).map(|_| SinkResp::Accept(k)));
+            s
+        }
+        // small chunks with interruption runs everywhere
+        6 => {
+            let k = rng.range(1, 30);
+            let mut s = vec![];
+            while s.len() < calls * 80 {
+                s.push(SinkResp::Accept(rng.range(1, k)));
+                if rng.chance(1, 5) {
+                    for _ in 0..rng.range(1, 9) {
+                        s.push(SinkResp::Interrupted);
+                    }
+                }
+            }
+            s
+        }
         // mixture
         _ => (0..calls * 3)
             .map(|_| match rng.below(12) {
@@ -249,7 +279,7 @@ pub fn c13_case(d: &mut Driver, rep: &mut Report, cfg: &WCfg, es: &[(Vec<u8>, Ve
     }
 }
 pub fn c13(ctx: &Ctx) -> Report {
-    let base = Report::new("C13", "tables with one and many blocks (configurations as in C01) x sink schedules: fixed chunk sizes 1..9, per-call random prefixes with zero-length acceptance, Interrupted at call i and hard error at call i for every i (exhaustively over all write/flush calls for the first cases of each worker, random i beyond), random mixtures; every sink call with its buffer is compared with the model writer; judge: finish Ok(n) => sink bytes == perfect image and n == its length; hard error => no success; non-trivial = every scheduled case; distinct by (configuration, entries, schedule)");
+    let base = Report::new("C13", "tables with one and many blocks (configurations as in C01) x sink schedules: fixed chunk sizes 1..9, per-call random prefixes with zero-length acceptance, runs of 1..12 consecutive Interrupted after partially accepted buffers (at one place / everywhere), Interrupted at call i and hard error at call i for every i (exhaustively over all write/flush calls for the first cases of each worker, random i beyond), random mixtures; every sink call with its buffer is compared with the model writer; judge: finish Ok(n) => sink bytes == perfect image and n == its length; hard error => no success; non-trivial = every scheduled case; distinct by (configuration, entries, schedule)");
     let n = per_thread(ctx, 1500, 20000);
     parallel(&ctx.driver, ctx.threads, ctx.seed, base, |t, d, rng, rep| {
         for i in 0..n {
@@ -273,7 +303,7 @@ pub fn c13(ctx: &Ctx) -> Report {
                     rep.count_n("exhaustive_fault_positions", 2);
                 }
             }
-            for kind in 0..5 {
+            for kind in 0..8 {
                 let s = gen_sched(rng, calls, kind);
                 rep.count(&format!("schedule_kind_{}", kind));
                 c13_case(d, rep, &cfg, &es, &perfect, &s);
